@@ -60,6 +60,8 @@ def mut_convert_u(wat):
 
 
 MUTATIONS = [("convert-i64-u-uses-signed-cvtsi2sd", mut_convert_u)]
+# key of the instruction-level finding with the same root cause (the emitter case for that instruction)
+MUTATION_KEYS = {"convert-i64-u-uses-signed-cvtsi2sd": "inline:f64.convert_i64_u:unsigned-ge-2pow63"}
 
 
 def native_status(rc):
@@ -346,7 +348,8 @@ def run_programs(ctx, B, h, wa, dist, samples, nontrivial):
         else:
             for nm in r["needed"]:
                 if nm.startswith("ins:"):
-                    ctx.violation("native-ins:" + nm[4:], "%s: native output differs at line %d (native %r, wasm %r); the native output is what WebAssembly computes when `%s` is emulated in the reference" % (
+                    # same root cause as the instruction-level finding: report it under that finding's key
+                    ctx.violation(MUTATION_KEYS.get(nm[4:], "native-ins:" + nm[4:]), "%s: native output differs at line %d (native %r, wasm %r); the native output is what WebAssembly computes when `%s` is emulated in the reference" % (
                         name, r["first_diff"]["line"], r["first_diff"]["native"][:60], r["first_diff"]["wasm"][:60], nm[4:]),
                         {"program": name, "first_diff": r["first_diff"], "explained_by": r["needed"], "source": src[:4000]})
                     continue
